@@ -848,6 +848,15 @@ impl Parser {
     }
 
     fn parse_if_or_match(&mut self) -> Result<UntypedExpr, ()> {
+        // struct literals are allowed again inside the braces of an `if` / `match`, but an enclosing
+        // condition or scrutinee continues after it:
+        let struct_literals_allowed = self.struct_literals_allowed;
+        let expr = self.parse_if_or_match_expr();
+        self.struct_literals_allowed = struct_literals_allowed;
+        expr
+    }
+
+    fn parse_if_or_match_expr(&mut self) -> Result<UntypedExpr, ()> {
         if let Some(meta) = self.next_matches(&TokenEnum::KeywordIf) {
             // if <cond> { <then> } else [if { <else-if> } else]* { <else> }
             self.struct_literals_allowed = false;
